@@ -285,7 +285,7 @@ class IndentAndNameChecker(BaseChecker):
         # Catching also no-uppercase config names (TyPO_NAME) to throw an error later on.
         # Quoted symbols are "y"/"n", env_vars or string literals;
         # the last two categories can contain anything between the quotes, thus it is broader.
-        symbol = r"\w+|\".+?\"|'.+?'"
+        symbol = r"\w+|\".*?\"|'.*?'"  # a string literal may be empty
         reg_prompt = re.compile(r"^\".*?\"\s+(?:if)\s+(?P<expression0>.*)$")
         reg_default = re.compile(r"^(?P<expression0>.*)\s+(?:if)\s+(?P<expression1>.*)$")
         reg_select_imply = re.compile(rf"^(?P<expression0>{symbol})\s+(?:if)\s+(?P<expression1>.*)$")
